@@ -127,7 +127,8 @@ EnvLists == LET x == JsonDeserialize(IOEnv.C12_LISTS) IN {x[i] : i \in DOMAIN x}
 S_OutLists == {<<OFL>>, <<OTAB>>, <<VID7, O2, STRIP, O3>>, <<OC64, NSRC, TPD, OALL>>, <<SRC, OIN, E2>>,
                <<TOS, PCP5, OC, O1>>}
 S_BufLists == {<<O3>>, <<NDST, OFL>>, <<OIN, STRIP, O2>>, <<>>}
-S_Shapes == {"u_tcp", "t_udp", "u_icmp", "t_arp", "u_oth", "bpdu", "u_big", "u_udp_ecn", "u_frag2"}
+S_Shapes == {"u_tcp", "t_udp", "u_icmp", "t_arp", "u_oth", "bpdu", "u_big", "u_udp_ecn", "u_frag2",
+             "u_frag1", "t_cfi", "u_udp_odd"}
 
 ASSUME NoTable(AT_FlowLists \cup T_FlowLists \cup C_FlowLists \cup D_FlowLists \cup F_FlowLists)
 =============================================================================
